@@ -22,9 +22,13 @@ var engDebug = os.Getenv("PCHECK_DEBUG") != ""
 
 // Engine is the path-sensitive abstract interpreter for clients of parse.Input.
 type Engine struct {
-	r    *core.Run
-	prog *core.Program
-	cfg  EngCfg
+	itabMu  sync.Mutex
+	pure    map[*ssa.Function]bool
+	itables map[string]*[256]int64
+	derived map[string]*[256]bool
+	r       *core.Run
+	prog    *core.Program
+	cfg     EngCfg
 
 	obs                map[string]*engOb
 	obOrder            []string
@@ -379,6 +383,10 @@ func (e *Engine) info(fn *ssa.Function) *fnInfo {
 				if isLexeme(x.X) {
 					mark(x.Index, 0)
 				}
+				// the loop counter of `for _, f := range consumers` over a slice of scanner functions
+				if isFuncSlice(x.X.Type()) {
+					mark(x.Index, 0)
+				}
 			}
 		}
 	}
@@ -667,8 +675,7 @@ func (e *Engine) run(fn *ssa.Function, entry *State, args []AbsVal) []exitState 
 	}
 	merged := map[ek]*exitState{}
 	var order []ek
-	for i := range exits {
-		x := &exits[i]
+	retSig := func(x *exitState) string {
 		var sb strings.Builder
 		for _, rv := range x.ret {
 			if c, ok := rv.constInt(); ok {
@@ -677,12 +684,34 @@ func (e *Engine) run(fn *ssa.Function, entry *State, args []AbsVal) []exitState 
 				sb.WriteString("?,")
 			}
 		}
-		k := ek{nil, sb.String() + "|" + x.st.exitKey()}
+		return sb.String()
+	}
+	coarseOf := func(x *exitState) string { return retSig(x) + "|" + x.st.exitKey() }
+	// exits that agree on the results but know different things about the next two bytes stay apart while they are
+	// few (a helper that answers "is this a tag close?" returns 0 both for "not / or ?" and for "/ not followed by >")
+	fineOf := func(x *exitState) string {
+		return fmt.Sprintf("|%x|%x", x.st.byteAt(0), x.st.byteAt(1))
+	}
+	fineCount := map[string]map[string]bool{}
+	for i := range exits {
+		c := coarseOf(&exits[i])
+		if fineCount[c] == nil {
+			fineCount[c] = map[string]bool{}
+		}
+		fineCount[c][fineOf(&exits[i])] = true
+	}
+	for i := range exits {
+		x := &exits[i]
+		ck := coarseOf(x)
+		if n := len(fineCount[ck]); n > 1 && n <= 4 && !x.st.coarse {
+			ck += fineOf(x)
+		}
+		k := ek{nil, ck}
 		if os.Getenv("PCHECK_EXITDEBUG") != "" && strings.Contains(fn.Name(), os.Getenv("PCHECK_EXITDEBUG")) {
 			fmt.Fprintf(os.Stderr, "EXIT %s key=%s ret=%s bytes0=%x\n", fn.Name(), k.key, retString(x.ret), x.st.byteAt(0))
 		}
 		if fn == e.entryFn && len(e.stack) == 1 {
-			k = ek{x.at, sb.String() + "|" + x.st.key(nil)} // the entry point's returns are judged individually
+			k = ek{x.at, retSig(x) + "|" + x.st.key(nil)} // the entry point's returns are judged individually
 		}
 		if m, ok := merged[k]; ok {
 			m.st.joinInto(x.st, 0)
@@ -699,6 +728,34 @@ func (e *Engine) run(fn *ssa.Function, entry *State, args []AbsVal) []exitState 
 		out = append(out, *merged[k])
 	}
 	return out
+}
+
+// isFuncSlice: a slice (or pointer to array) of function values.
+func isFuncSlice(t types.Type) bool {
+	switch u := t.Underlying().(type) {
+	case *types.Slice:
+		_, ok := u.Elem().Underlying().(*types.Signature)
+		return ok
+	case *types.Pointer:
+		if a, ok := u.Elem().Underlying().(*types.Array); ok {
+			_, ok := a.Elem().Underlying().(*types.Signature)
+			return ok
+		}
+	}
+	return false
+}
+
+// higherOrder: a plain function that receives scanner functions (firstToken(consumers ...func() TokenType)).
+func higherOrder(fn *ssa.Function) bool {
+	for _, p := range fn.Params {
+		if isFuncSlice(p.Type()) {
+			return true
+		}
+		if _, ok := p.Type().Underlying().(*types.Signature); ok {
+			return true
+		}
+	}
+	return false
 }
 
 func isPlainInt(t types.Type) bool {
@@ -1046,6 +1103,12 @@ func (e *Engine) eval(st *State, v ssa.Value) AbsVal {
 			if c, ok := constant.Int64Val(x.Value); ok {
 				return intVal(c)
 			}
+		case constant.String:
+			if s := constant.StringVal(x.Value); len(s) <= 64 {
+				if b, ok := x.Type().Underlying().(*types.Basic); ok && b.Info()&types.IsString != 0 {
+					return AbsVal{k: vStrSet, strs: []string{s}}
+				}
+			}
 		}
 		return top
 	case *ssa.Function:
@@ -1170,7 +1233,24 @@ func (e *Engine) compute(fi *fnInfo, st *State, in ssa.Value) AbsVal {
 		return top
 	case *ssa.Slice:
 		return e.slice(fi, st, x)
-	case *ssa.FieldAddr, *ssa.Field, *ssa.MakeInterface, *ssa.MakeSlice, *ssa.MakeMap, *ssa.TypeAssert, *ssa.ChangeInterface, *ssa.Range, *ssa.Next, *ssa.SliceToArrayPointer, *ssa.MakeChan, *ssa.Select:
+	case *ssa.Field:
+		// a field of a by-value copy of a lexer sub-struct (value receivers, `t := l.tmpl`): objects are identified by
+		// type, so this is the same abstract location as the field reached through the pointer
+		if tp, ok := modTypePath(x.X.Type()); ok {
+			path := tp + "." + fieldName(x.X.Type(), x.Field)
+			if av, ok := st.heap[path]; ok {
+				if av.k == vInt && len(av.ints) > 1 {
+					av.atom = path
+				}
+				return av
+			}
+			if _, isSlice := x.Type().Underlying().(*types.Slice); isSlice {
+				return AbsVal{k: kFieldSlice, atom: path}
+			}
+			return AbsVal{k: kHeapRef, atom: path}
+		}
+		return top
+	case *ssa.FieldAddr, *ssa.MakeInterface, *ssa.MakeSlice, *ssa.MakeMap, *ssa.TypeAssert, *ssa.ChangeInterface, *ssa.Range, *ssa.Next, *ssa.SliceToArrayPointer, *ssa.MakeChan, *ssa.Select:
 		return top
 	}
 	return top
@@ -1215,6 +1295,23 @@ func (e *Engine) load(st *State, x *ssa.UnOp) AbsVal {
 				}
 				return AbsVal{k: vTable, table: t, tabX: ia.Index}
 			}
+			if t := e.intTable(g); t != nil {
+				if _, named := x.Type().(*types.Named); !named {
+					// class bits: the link to the byte is kept so that a mask test refines it
+					return AbsVal{k: vTabInt, itable: t, tabX: ia.Index, mask: -1}
+				}
+				return tableValues(t, e.eval(st, ia.Index).byteSet())
+			}
+		}
+	}
+	// table[c].field for a [256]struct literal
+	if fa, ok := x.X.(*ssa.FieldAddr); ok {
+		if ia, ok := fa.X.(*ssa.IndexAddr); ok {
+			if g, ok := ia.X.(*ssa.Global); ok {
+				if t := e.intTableField(g, fa.Field); t != nil {
+					return tableValues(t, e.eval(st, ia.Index).byteSet())
+				}
+			}
 		}
 	}
 	if b, ok := x.Type().Underlying().(*types.Basic); ok && b.Kind() == types.String {
@@ -1241,6 +1338,103 @@ func (e *Engine) boolTable(g *ssa.Global) *[256]bool {
 	}
 	e.tables[g] = out
 	return out
+}
+
+// intTable: the constant contents of a package-level [256]<integer> literal (character classes, per-byte token types).
+func (e *Engine) intTable(g *ssa.Global) *[256]int64 { return e.intTableField(g, -1) }
+
+// intTableField: field >= 0 selects an integer field of a [256]struct{...} literal.
+func (e *Engine) intTableField(g *ssa.Global, field int) *[256]int64 {
+	e.itabMu.Lock()
+	defer e.itabMu.Unlock()
+	if e.itables == nil {
+		e.itables = map[string]*[256]int64{}
+		e.derived = map[string]*[256]bool{}
+	}
+	key := fmt.Sprintf("%p/%d", g, field)
+	if t, ok := e.itables[key]; ok {
+		return t
+	}
+	var out *[256]int64
+	if g.Pkg != nil && core.InModule(g.Pkg.Pkg) {
+		if p, ok := g.Type().Underlying().(*types.Pointer); ok {
+			if a, ok := p.Elem().Underlying().(*types.Array); ok && a.Len() == 256 {
+				et := a.Elem()
+				if st, isSt := et.Underlying().(*types.Struct); isSt && field >= 0 && field < st.NumFields() {
+					et = st.Field(field).Type()
+				} else if field >= 0 {
+					et = nil
+				}
+				if et != nil {
+					if b, ok := et.Underlying().(*types.Basic); ok && b.Info()&types.IsInteger != 0 {
+						if pk := e.prog.ByPath[g.Pkg.Pkg.Path()]; pk != nil {
+							if l, err := evalGlobal(pk, g.Name()); err == nil && len(l.Elems) == 256 {
+								var t [256]int64
+								okAll := true
+								for i, el := range l.Elems {
+									if el == nil {
+										continue
+									}
+									if field >= 0 {
+										if field >= len(el.Elems) {
+											okAll = false
+											continue
+										}
+										el = el.Elems[field]
+										if el == nil {
+											continue
+										}
+									}
+									v, okV := el.Int()
+									if !okV {
+										okAll = false
+									}
+									t[i] = v
+								}
+								if okAll {
+									out = &t
+								}
+							}
+						}
+					}
+				}
+			}
+		}
+	}
+	e.itables[key] = out
+	return out
+}
+
+// tableValues: the values a table can yield for an index in the given byte set (a small set, else unknown).
+func tableValues(t *[256]int64, set ByteSet) AbsVal {
+	seen := map[int64]bool{}
+	var vals []int64
+	for _, b := range set.members() {
+		if !seen[t[b]] {
+			seen[t[b]] = true
+			vals = append(vals, t[b])
+		}
+	}
+	if len(vals) == 0 || len(vals) > 16 {
+		return top
+	}
+	return intVal(vals...)
+}
+
+// classTable: the [256]bool table "table[c] & mask != 0" (one object per (table, mask): tables are compared by identity).
+func (e *Engine) classTable(t *[256]int64, mask int64) *[256]bool {
+	e.itabMu.Lock()
+	defer e.itabMu.Unlock()
+	key := fmt.Sprintf("%p/%d", t, mask)
+	if b, ok := e.derived[key]; ok {
+		return b
+	}
+	var b [256]bool
+	for i := range t {
+		b[i] = t[i]&mask != 0
+	}
+	e.derived[key] = &b
+	return &b
 }
 
 func (e *Engine) store(st *State, in *ssa.Store) {
@@ -1325,9 +1519,16 @@ func (e *Engine) store(st *State, in *ssa.Store) {
 	// writes into the input buffer through a lexeme slice: byte knowledge about the token becomes stale
 	if ia, ok := in.Addr.(*ssa.IndexAddr); ok {
 		if b := e.eval(st, ia.X); b.k == vSlice {
-			fn := in.Parent()
-			_, allowed := inPlaceAllowed[fnLabel(fn)+" store"]
-			e.check(st, "R-INPLACE", fnLabel(fn)+" stores into input bytes", in.Pos(), allowed, "a byte of the input buffer is overwritten outside the audited site (XML attribute whitespace normalisation): tokens are no longer faithful slices of the input")
+			// which byte is overwritten with what? judged where the token is returned (checkReturn)
+			kind := wroteOther
+			if k, isK := e.eval(st, in.Val).constInt(); isK && k == ' ' {
+				if iv := e.eval(st, ia.Index); iv.k == vMark && iv.epoch == st.epoch && iv.dlo == iv.dhi && iv.dlo >= 1 && iv.dlo <= 12 {
+					if old := st.byteAt(-iv.dlo); old.subset(bsOf('\t', '\n', '\r')) {
+						kind = wroteSpace
+					}
+				}
+			}
+			st.wrote |= kind
 			e.staleBehind(st)
 		}
 	}
@@ -1403,6 +1604,25 @@ func (e *Engine) binop(st *State, x *ssa.BinOp) AbsVal {
 		ca, oka := a.constInt()
 		cb, okb := b.constInt()
 		switch x.Op {
+		case token.AND:
+			if oka && okb {
+				return intVal(ca & cb)
+			}
+			if a.k == vTabInt && okb {
+				a.mask &= cb
+				return a
+			}
+			if b.k == vTabInt && oka {
+				b.mask &= ca
+				return b
+			}
+			if a.k == vInt && okb && len(a.ints) > 0 && len(a.ints) <= 8 && !isBoolValue(x) {
+				var out []int64
+				for _, v := range a.ints {
+					out = append(out, v&cb)
+				}
+				return intVal(out...)
+			}
 		case token.ADD:
 			if oka && okb {
 				return intVal(ca + cb)
@@ -1535,6 +1755,10 @@ func (e *Engine) cmp(st *State, a, b AbsVal, op token.Token, xv, yv ssa.Value) A
 		if b.k == vMark {
 			// l.r.Pos() compared with another mark: undecided, no refinement
 			return top
+		}
+	case vTabInt:
+		if bConst && kb == 0 && (op == token.NEQ || op == token.EQL || op == token.GTR) {
+			return AbsVal{k: vTable, table: e.classTable(a.itable, a.mask), tabX: a.tabX, neg: op == token.EQL}
 		}
 	case vIdx:
 		if bConst {
